@@ -238,6 +238,7 @@ pub fn build_case(seed: u64, i: usize, thorough: bool) -> Built {
         // grammatical but odd expressions (tuples, `_`, anonymous components, nested arrays)
         // in every position an expression can be written in
         knobs.odd_permille = *r_proj.pick(&[0, 0, 0, 15, 60]);
+        knobs.odd_names = r_proj.chance(1, 3);
         let shape = ProjectShape { max_files: 3, max_defs: if thorough { 6 } else { 5 }, with_main: true, pragma_always: false };
         let p = gen::gen_project(&mut r_proj, &knobs, &shape);
         let mut style = Style::random(&mut r_style);
@@ -296,6 +297,11 @@ pub fn build_case(seed: u64, i: usize, thorough: bool) -> Built {
         } else {
             plan.stall_permille = *r_fault.pick(&[20, 100, 500, 1000]);
             configured.push("clock-stall-random".into());
+        }
+        // the diagnostics channel of a slow machine may be full as well
+        if r_fault.chance(1, 4) {
+            plan.stderr_errno = *r_fault.pick(&[libc::ENOSPC, libc::EIO, libc::EPIPE]);
+            configured.push("stderr-write-fails".into());
         }
         mode = "generated+clock";
     } else if mode_pick >= 68 && mode_pick < 76 && opts.sarif.is_some() {
@@ -371,6 +377,18 @@ pub fn run(env: &Env) -> i32 {
         let b = build_case(seed, i, thorough);
         match runner.run(&b.case) {
             Ok(o) => {
+                // a crash whose message could not be written (stderr fails by plan) is
+                // identified by running the same case again with a working stderr
+                let o = if b.case.plan.stderr_errno > 0 && crashed(&o) {
+                    let mut c2 = b.case.clone();
+                    c2.plan.stderr_errno = 0;
+                    match runner.run(&c2) {
+                        Ok(o2) if crashed(&o2) => o2,
+                        _ => o,
+                    }
+                } else {
+                    o
+                };
                 let mut fired = Vec::new();
                 for e in &o.events {
                     if e.call == "clock" {
